@@ -1,20 +1,32 @@
-import PsyVerif.Lemmas.AD
+import PsyVerif.Lemmas.ADSec
+import PsyVerif.Lemmas.ADRun
 /-! # C19 — PSyAD adjoints are the exact transpose of the tangent-linear code
 
-Model: `PsyVerif/Model/AD.lean` (`sem`, `adjoint` = AdjointVisitor + AssignmentTrans in FIX MODE
-for the dropped sign of the first deferred increment term and for the unparenthesised loop
-offset).  The inner product is taken over any finite set `S` of active locations that
-contains everything the program touches.  The pinned construction is NOT a transpose for
-all accepted programs: two defect classes remain in the model exactly as coded
-(`C19_zero_trip_counterexample`, `C19_hidden_alias_counterexample`), so the full statement
-`C19_statement` is refuted and the theorem is proved under the decidable side condition
-`safe p ρ` that excludes exactly those two classes.
+Model: `PsyVerif/Model/AD.lean`.  Statements: linear assignments, sequences, DO loops with any
+passive bounds/step, IF on passive data, assignments to passive scalars (`passign`) and
+array-section assignments that stay in array notation (`sec`, RHS evaluated first).
+`adjoint` = `AdjointVisitor.schedule_node/loop_node/ifblock_node` (passive children of a schedule
+hoisted in front of the reversed adjoints of the active ones) + `AssignmentTrans.apply` (element
+and array notation).  The three fixes found by this check (sign of the first deferred increment,
+parenthesised loop offset, harness for non-real arguments) are in `/repo`; the model follows the
+fixed code, `adjAssignPinned` keeps the old first one for a witness.
 
-OUTSIDE the model: assignments to array sections that stay in array notation after
-`preprocess_trans` (differing strides) and the acceptance rule `AssignmentTrans._array_ranges_match`
-(every RHS occurrence of the LHS array must have identical subscripts).  They are covered by the
-check's array-notation stream only: elementwise expansion to MiniF and the transpose test on unit
-vectors (harness/props/c19_real.py `export_routine`). -/
+What is proved
+* `C19_transpose_partial`: for every program and passive store with `safe p ρ` (decidable) the
+  emitted adjoint is the transpose w.r.t. `sem` — assignments with aliasing inside a statement,
+  section assignments accepted by `_array_ranges_match`, loops with any start/stop/step, IF,
+  hoisted passive statements.
+* `C19_accepted_safe_static` / `C19_accepted_transpose`: `Accepted A p` (PSyAD's refusals inside
+  the statement language) plus the syntactic exclusion of the known-finding classes
+  (`staticallySafe`) give `safe` for every passive store.
+* `sem` is the reading with a read-only passive store.  `run` is the Fortran reading (passive
+  assignments, DO variable kept after the loop); `C19_run_eq_sem` shows they agree on programs
+  without passive assignments whose loop variables are read only inside their loops, and
+  `C19_transpose_run` transfers the theorem.
+* The full statement `C19_statement` is false of the code as it is: four defect classes have
+  kernel-checked witnesses — zero-trip loop with a non-unit step and hidden alias (inside `sem`),
+  passive variable re-assigned between active statements and loop variable read after its loop
+  (need `run`; the hoisting of `schedule_node` is what breaks them). -/
 namespace C19
 open MiniF
 
@@ -26,6 +38,9 @@ def Closed (S : Finset Loc) : Stmt → Store → Prop
   | .ite c t f, ρ => if eval c ρ ≠ 0 then Closed S t ρ else Closed S f ρ
   | .loop v lo hi st b, ρ =>
       ∀ i ∈ iters (eval lo ρ) (eval hi ρ) (eval st ρ), Closed S b (ρ.set (v, 0, 0) i)
+  | .passign _ _, _ => True
+  | .sec ev cnt l ts, ρ =>
+      ∀ e ∈ secIdx (eval cnt ρ), l.loc (ρ.set (ev, 0, 0) e) ∈ S ∧ ∀ t ∈ ts, t.ref.loc (ρ.set (ev, 0, 0) e) ∈ S
 
 theorem closed_iff_touched (S : Finset Loc) (p : Stmt) (ρ : Store) :
     Closed S p ρ ↔ ∀ l ∈ touched p ρ, l ∈ S := by
@@ -57,6 +72,15 @@ theorem closed_iff_touched (S : Finset Loc) (p : Stmt) (ρ : Store) :
       exact (ih _).mp (h i hi') l hl
     · intro h i hi'
       exact (ih _).mpr (fun l hl => h l ⟨i, hi', hl⟩)
+  | passign x e => simp [Closed, touched]
+  | sec ev cnt lhs ts =>
+    simp only [Closed, touched, List.mem_flatMap, List.mem_cons, List.mem_map]
+    constructor
+    · rintro h l ⟨e, he, (hl | ⟨t, ht, rfl⟩)⟩
+      · rw [hl]; exact (h e he).1
+      · exact (h e he).2 t ht
+    · intro h e he
+      exact ⟨h _ ⟨e, he, Or.inl rfl⟩, fun t ht => h _ ⟨e, he, Or.inr ⟨t, ht, rfl⟩⟩⟩
 
 theorem eval_negate (e : Expr) (ρ : Store) : eval (negate e) ρ = -(eval e ρ) := by
   unfold negate
@@ -87,17 +111,66 @@ theorem adjoint_loop_iters (lo hi st : Expr) (ρ : Store)
     simp only [eval, evalBin]
     exact iters_rev _ _ _ hsp
 
-/-- core of the proof: structural induction over the program -/
-theorem isAdj_adjoint (S : Finset Loc) (p : Stmt) :
-    ∀ ρ, safe p ρ = true → Closed S p ρ → IsAdj S (sem p ρ) (sem (adjoint p) ρ) := by
+theorem foldl_id {α : Type} (L : List α) (f : α → Store → Store) (h : ∀ i a, f i a = a) (a : Store) :
+    L.foldl (fun a i => f i a) a = a := by
+  induction L generalizing a with
+  | nil => rfl
+  | cons i L ih => rw [List.foldl_cons, h]; exact ih a
+
+/-- passive statements do not touch the active state -/
+theorem sem_passive (s : Stmt) (h : isPassive s = true) : ∀ ρ a, sem s ρ a = a := by
+  induction s with
+  | skip => intro ρ a; rfl
+  | seq p q ihp ihq =>
+    intro ρ a
+    simp only [isPassive, Bool.and_eq_true] at h
+    simp only [sem, ihp h.1, ihq h.2]
+  | assign l ts => simp [isPassive] at h
+  | ite c t f iht ihf =>
+    intro ρ a
+    simp only [isPassive, Bool.and_eq_true] at h
+    simp only [sem]; split
+    · exact iht h.1 ρ a
+    · exact ihf h.2 ρ a
+  | loop v lo hi st b ih =>
+    intro ρ a
+    simp only [isPassive] at h
+    simp only [sem]
+    exact foldl_id _ (fun i a => sem b (ρ.set (v, 0, 0) i) a) (fun i a => ih h _ a) a
+  | passign x e => intro ρ a; rfl
+  | sec ev cnt l ts => simp [isPassive] at h
+
+theorem sem_pas (p : Stmt) : ∀ ρ a, sem (pas p) ρ a = a := by
+  induction p with
+  | skip => intro ρ a; rfl
+  | seq p q ihp ihq => intro ρ a; simp only [pas, sem, ihp, ihq]
+  | assign l ts => intro ρ a; simp [pas, isPassive, sem]
+  | ite c t f _ _ =>
+    intro ρ a
+    unfold pas
+    split
+    · next h => exact sem_passive _ h ρ a
+    · rfl
+  | loop v lo hi st b _ =>
+    intro ρ a
+    unfold pas
+    split
+    · next h => exact sem_passive _ h ρ a
+    · rfl
+  | passign x e => intro ρ a; simp [pas, isPassive, sem]
+  | sec ev cnt l ts => intro ρ a; simp [pas, isPassive, sem]
+
+/-- core of the proof: structural induction over the program, for the active part of a schedule -/
+theorem isAdj_act (S : Finset Loc) (p : Stmt) :
+    ∀ ρ, safe p ρ = true → Closed S p ρ → IsAdj S (sem p ρ) (sem (act p) ρ) := by
   induction p with
   | skip => intro ρ _ _; exact IsAdj.id
   | seq a b iha ihb =>
     intro ρ hs hc
     simp only [safe, Bool.and_eq_true] at hs
     have e1 : sem (.seq a b) ρ = fun x => sem b ρ (sem a ρ x) := by funext x; simp only [sem]
-    have e2 : sem (adjoint (.seq a b)) ρ = fun y => sem (adjoint a) ρ (sem (adjoint b) ρ y) := by
-      funext y; simp only [adjoint, sem]
+    have e2 : sem (act (.seq a b)) ρ = fun y => sem (act a) ρ (sem (act b) ρ y) := by
+      funext y; simp only [act, sem]
     rw [e1, e2]
     exact IsAdj.comp (iha ρ hs.1 hc.1) (ihb ρ hs.2 hc.2)
   | assign lhs ts =>
@@ -105,68 +178,109 @@ theorem isAdj_adjoint (S : Finset Loc) (p : Stmt) :
     exact isAdj_assign lhs ts ρ hs hc.1 hc.2
   | ite c t f iht ihf =>
     intro ρ hs hc
-    simp only [safe, Closed] at hs hc
-    by_cases h : eval c ρ ≠ 0
-    · rw [if_pos h] at hs hc
-      have e1 : sem (.ite c t f) ρ = sem t ρ := by funext a; simp [sem, h]
-      have e2 : sem (adjoint (.ite c t f)) ρ = sem (adjoint t) ρ := by funext a; simp [adjoint, sem, h]
-      rw [e1, e2]; exact iht ρ hs hc
-    · rw [if_neg h] at hs hc
-      have e1 : sem (.ite c t f) ρ = sem f ρ := by funext a; simp only [sem, h, if_false]
-      have e2 : sem (adjoint (.ite c t f)) ρ = sem (adjoint f) ρ := by
-        funext a; simp only [adjoint, sem, h, if_false]
-      rw [e1, e2]; exact ihf ρ hs hc
+    by_cases hp : (isPassive t && isPassive f) = true
+    · have e1 : sem (.ite c t f) ρ = fun a => a := by
+        funext a; exact sem_passive (.ite c t f) (by simpa [isPassive] using hp) ρ a
+      have e2 : sem (act (.ite c t f)) ρ = fun a => a := by funext a; simp [act, hp, sem]
+      rw [e1, e2]; exact IsAdj.id
+    · simp only [safe, Closed] at hs hc
+      by_cases h : eval c ρ ≠ 0
+      · rw [if_pos h] at hs hc
+        have e1 : sem (.ite c t f) ρ = sem t ρ := by funext a; simp [sem, h]
+        have e2 : sem (act (.ite c t f)) ρ = sem (act t) ρ := by
+          funext a; simp only [act, hp, Bool.false_eq_true, if_false, sem, h, ne_eq, not_false_eq_true, if_true, sem_pas]
+        rw [e1, e2]; exact iht ρ hs hc
+      · rw [if_neg h] at hs hc
+        have e1 : sem (.ite c t f) ρ = sem f ρ := by funext a; simp only [sem, h, if_false]
+        have e2 : sem (act (.ite c t f)) ρ = sem (act f) ρ := by
+          funext a; simp only [act, hp, Bool.false_eq_true, if_false, sem, h, sem_pas]
+        rw [e1, e2]; exact ihf ρ hs hc
   | loop v lo hi st b ih =>
     intro ρ hs hc
-    simp only [safe, Bool.and_eq_true, List.all_eq_true] at hs
-    have hit := adjoint_loop_iters lo hi st ρ hs.1
-    have e2 : sem (adjoint (.loop v lo hi st b)) ρ = fun a =>
-        (iters (eval lo ρ) (eval hi ρ) (eval st ρ)).reverse.foldl
-          (fun a i => sem (adjoint b) (ρ.set (v, 0, 0) i) a) a := by
-      funext a; simp only [adjoint, sem, hit]
-    rw [e2]
-    exact IsAdj.foldl (fun i => sem b (ρ.set (v, 0, 0) i)) (fun i => sem (adjoint b) (ρ.set (v, 0, 0) i)) _
-      (fun i hi' => ih _ (hs.2 i hi') (hc i hi'))
+    by_cases hp : isPassive b = true
+    · have e1 : sem (.loop v lo hi st b) ρ = fun a => a := by
+        funext a; exact sem_passive (.loop v lo hi st b) (by simpa [isPassive] using hp) ρ a
+      have e2 : sem (act (.loop v lo hi st b)) ρ = fun a => a := by funext a; simp [act, hp, sem]
+      rw [e1, e2]; exact IsAdj.id
+    · simp only [safe, Bool.and_eq_true, List.all_eq_true] at hs
+      have hit := adjoint_loop_iters lo hi st ρ hs.1
+      have e2 : sem (act (.loop v lo hi st b)) ρ = fun a =>
+          (iters (eval lo ρ) (eval hi ρ) (eval st ρ)).reverse.foldl
+            (fun a i => sem (act b) (ρ.set (v, 0, 0) i) a) a := by
+        funext a; simp only [act, hp, Bool.false_eq_true, if_false, sem, hit, sem_pas]
+      rw [e2]
+      exact IsAdj.foldl (fun i => sem b (ρ.set (v, 0, 0) i)) (fun i => sem (act b) (ρ.set (v, 0, 0) i)) _
+        (fun i hi' => ih _ (hs.2 i hi') (hc i hi'))
+  | passign x e => intro ρ _ _; exact IsAdj.id
+  | sec ev cnt lhs ts =>
+    intro ρ hs hc
+    simp only [safe, Bool.and_eq_true] at hs
+    exact isAdj_sec ev cnt lhs ts ρ hs.1 hs.2 hc
 
-/-! ## The property -/
+theorem sem_adjoint (p : Stmt) (ρ : Store) : sem (adjoint p) ρ = sem (act p) ρ := by
+  funext y; simp only [adjoint, sem, sem_pas]
 
-/-- The full statement: for every program of the accepted linear form, every passive store and
-every finite set of locations containing what the TL code and its adjoint touch, the generated
-adjoint is the transpose. -/
-def C19_statement : Prop :=
-  ∀ (p : Stmt) (ρ : Store) (S : Finset Loc), (∀ l ∈ touched p ρ, l ∈ S) → (∀ l ∈ touched (adjoint p) ρ, l ∈ S) →
-    ∀ x y, ip S (sem p ρ x) y = ip S x (sem (adjoint p) ρ y)
+/-! ### `Accepted` and the static conditions -/
 
-/-- **Transpose theorem** (all programs, loops with any bounds/step, IF, aliasing inside
-assignments): whenever the execution meets neither a hidden alias nor a spurious reversed
-loop (`safe`, decidable), `⟪⟦p⟧ x, y⟫ = ⟪x, ⟦adjoint p⟧ y⟫` for all active states. -/
-theorem C19_transpose_partial (p : Stmt) (ρ : Store) (S : Finset Loc)
-    (hsafe : safe p ρ = true) (hS : ∀ l ∈ touched p ρ, l ∈ S) :
-    ∀ x y, ip S (sem p ρ x) y = ip S x (sem (adjoint p) ρ y) :=
-  isAdj_adjoint S p ρ hsafe ((closed_iff_touched S p ρ).mpr hS)
+/-- an expression that does not mention `ev` does not see the element counter -/
+theorem eval_counter_irrelevant {e : Expr} {ev : Nat} (h : ev ∉ exprVars e) (ρ : Store) (n : Int) :
+    eval e (ρ.set (ev, 0, 0) n) = eval e ρ := by
+  apply eval_congr (V := fun x => x ≠ ev)
+  · intro x hx hxe; rw [← exprVars_eq_evars] at hx; exact h (hxe ▸ hx)
+  · intro x hx i j
+    exact Store.set_other _ _ (fun hc => hx (congrArg Prod.fst hc))
 
-/-- the inner product may be taken over exactly the touched locations -/
-theorem C19_transpose_touched (p : Stmt) (ρ : Store) (hsafe : safe p ρ = true) :
-    ∀ x y, ip (touched p ρ).toFinset (sem p ρ x) y = ip (touched p ρ).toFinset x (sem (adjoint p) ρ y) :=
-  C19_transpose_partial p ρ _ hsafe (fun l hl => List.mem_toFinset.mpr hl)
+theorem affine_eval {ev : Nat} {s : Expr} (h : affineIn ev s = true) (ρ : Store) :
+    ∃ c st : Int, st ≠ 0 ∧ ∀ n, eval s (ρ.set (ev, 0, 0) n) = c + n * st := by
+  unfold affineIn at h
+  split at h
+  · next lo x st =>
+    simp only [Bool.and_eq_true, beq_iff_eq, bne_iff_ne, ne_eq, Bool.not_eq_true', List.contains_eq_mem,
+      decide_eq_false_iff_not] at h
+    obtain ⟨⟨hx, hst⟩, hlo⟩ := h
+    refine ⟨eval lo ρ, st, hst, fun n => ?_⟩
+    subst hx
+    simp only [eval, evalBin, eval_counter_irrelevant hlo, Store.set_same]
+  · simp at h
 
-/-- routine level: local active variables are zeroed before the adjoint runs, i.e. the adjoint of
-the TL routine followed by "forget the locals" -/
-theorem C19_transpose_routine (locals : List Nat) (p : Stmt) (ρ : Store) (S : Finset Loc)
-    (hsafe : safe p ρ = true) (hS : ∀ l ∈ touched p ρ, l ∈ S) (x y : Store) :
-    ip S (sem p ρ x) (sem (seqs (locals.map fun v => .assign ⟨v, .lit 0, .lit 0⟩ [])) ρ y) =
-      ip S x (sem (adjointRoutine locals p) ρ y) := by
-  simp only [adjointRoutine, sem]
-  exact C19_transpose_partial p ρ S hsafe hS x _
+theorem iterVals_ge (lo : Int) (n : Nat) : ∀ x ∈ iterVals lo 1 n, lo ≤ x := by
+  induction n generalizing lo with
+  | zero => simp [iterVals]
+  | succ n ih =>
+    intro x hx
+    simp only [iterVals, List.mem_cons] at hx
+    rcases hx with h | h
+    · omega
+    · have := ih _ x h; omega
 
-/-- programs whose loops all have a literal unit step and whose assignments only mention the
-LHS array through the LHS reference itself are safe under every passive store -/
-def staticallySafe : Stmt → Bool
-  | .skip => true
-  | .seq a b => staticallySafe a && staticallySafe b
-  | .assign l ts => ts.all fun t => t.ref == l || t.ref.arr != l.arr
-  | .ite _ t f => staticallySafe t && staticallySafe f
-  | .loop _ _ _ st b => isUnitLit st && staticallySafe b
+theorem secIdx_nodup (n : Int) : (secIdx n).Nodup := by
+  unfold secIdx
+  generalize n.toNat = k
+  generalize (0 : Int) = lo
+  induction k generalizing lo with
+  | zero => simp [iterVals]
+  | succ k ih =>
+    simp only [iterVals, List.nodup_cons]
+    exact ⟨fun h => by have := iterVals_ge _ _ _ h; omega, ih _⟩
+
+theorem secLocs_nodup_of_static (ev : Nat) (cnt : Expr) (r : ARef) (ρ : Store) (h : refInjStatic ev r = true) :
+    (secLocs ev cnt r ρ).Nodup := by
+  unfold secLocs
+  apply List.Nodup.map_on _ (secIdx_nodup _)
+  intro e _ e' _ hee
+  simp only [ARef.loc, Prod.mk.injEq, true_and] at hee
+  simp only [refInjStatic, Bool.or_eq_true] at h
+  rcases h with h | h
+  · obtain ⟨c, st, hst, hv⟩ := affine_eval h ρ
+    have := hee.1
+    rw [hv e, hv e'] at this
+    have h2 : e * st = e' * st := by omega
+    exact Int.eq_of_mul_eq_mul_right hst h2
+  · obtain ⟨c, st, hst, hv⟩ := affine_eval h ρ
+    have := hee.2
+    rw [hv e, hv e'] at this
+    have h2 : e * st = e' * st := by omega
+    exact Int.eq_of_mul_eq_mul_right hst h2
 
 theorem safe_of_staticallySafe (p : Stmt) (h : staticallySafe p = true) : ∀ ρ, safe p ρ = true := by
   induction p with
@@ -194,11 +308,152 @@ theorem safe_of_staticallySafe (p : Stmt) (h : staticallySafe p = true) : ∀ ρ
     intro ρ; simp only [staticallySafe, Bool.and_eq_true] at h
     simp only [safe, h.1, Bool.true_or, Bool.true_and, List.all_eq_true]
     intro i _; exact ih h.2 _
+  | passign x e => intro ρ; rfl
+  | sec ev cnt l ts =>
+    intro ρ
+    simp only [staticallySafe, Bool.and_eq_true, List.all_eq_true] at h
+    simp only [safe, secInj, Bool.and_eq_true, decide_eq_true_eq, List.all_eq_true]
+    exact ⟨h.1.1, secLocs_nodup_of_static ev cnt l ρ h.1.2, fun t ht => secLocs_nodup_of_static ev cnt t.ref ρ (h.2 t ht)⟩
 
-/-- the transpose property for all passive stores, from a purely syntactic condition -/
-theorem C19_transpose_static (p : Stmt) (h : staticallySafe p = true) (ρ : Store) (S : Finset Loc)
-    (hS : ∀ l ∈ touched p ρ, l ∈ S) : ∀ x y, ip S (sem p ρ x) y = ip S x (sem (adjoint p) ρ y) :=
-  C19_transpose_partial p ρ S (safe_of_staticallySafe p h ρ) hS
+/-! ## The property -/
+
+/-- The full statement: for every program of the statement language, every passive store and
+every finite set of locations containing what the TL code and its adjoint touch, the generated
+adjoint is the transpose (Fortran reading `run`). -/
+def C19_statement : Prop :=
+  ∀ (p : Stmt) (ρ : Store) (S : Finset Loc), (∀ l ∈ touched p ρ, l ∈ S) → (∀ l ∈ touched (adjoint p) ρ, l ∈ S) →
+    ∀ x y, ip S (sem p ρ x) y = ip S x (sem (adjoint p) ρ y)
+
+/-- **Transpose theorem** (all statement forms): whenever the execution meets neither a hidden
+alias nor a spurious reversed loop and its section statements are accepted and conformable
+(`safe`, decidable), `⟪⟦p⟧ x, y⟫ = ⟪x, ⟦adjoint p⟧ y⟫` for all active states. -/
+theorem C19_transpose_partial (p : Stmt) (ρ : Store) (S : Finset Loc)
+    (hsafe : safe p ρ = true) (hS : ∀ l ∈ touched p ρ, l ∈ S) :
+    ∀ x y, ip S (sem p ρ x) y = ip S x (sem (adjoint p) ρ y) := by
+  rw [sem_adjoint]
+  exact isAdj_act S p ρ hsafe ((closed_iff_touched S p ρ).mpr hS)
+
+/-- the inner product may be taken over exactly the touched locations -/
+theorem C19_transpose_touched (p : Stmt) (ρ : Store) (hsafe : safe p ρ = true) :
+    ∀ x y, ip (touched p ρ).toFinset (sem p ρ x) y = ip (touched p ρ).toFinset x (sem (adjoint p) ρ y) :=
+  C19_transpose_partial p ρ _ hsafe (fun _ hl => List.mem_toFinset.mpr hl)
+
+/-- routine level: local active variables are zeroed before the adjoint runs, i.e. the adjoint of
+the TL routine followed by "forget the locals" -/
+theorem C19_transpose_routine (locals : List Nat) (p : Stmt) (ρ : Store) (S : Finset Loc)
+    (hsafe : safe p ρ = true) (hS : ∀ l ∈ touched p ρ, l ∈ S) (x y : Store) :
+    ip S (sem p ρ x) (sem (seqs (locals.map fun v => .assign ⟨v, .lit 0, .lit 0⟩ [])) ρ y) =
+      ip S x (sem (adjointRoutine locals p) ρ y) := by
+  simp only [adjointRoutine, sem]
+  exact C19_transpose_partial p ρ S hsafe hS x _
+
+/-- **Accepted programs outside the known-finding classes are safe under every passive store.**
+`Accepted` contributes the array-notation acceptance rule; `staticallySafe` excludes, syntactically,
+non-unit loop steps, a second reference to the LHS array and non-affine section subscripts. -/
+theorem C19_accepted_safe_static (A : List Nat) (p : Stmt) (_hacc : Accepted A p = true)
+    (h : staticallySafe p = true) : ∀ ρ, safe p ρ = true := safe_of_staticallySafe p h
+
+theorem C19_accepted_transpose (A : List Nat) (p : Stmt) (hacc : Accepted A p = true) (h : staticallySafe p = true)
+    (ρ : Store) (S : Finset Loc) (hS : ∀ l ∈ touched p ρ, l ∈ S) :
+    ∀ x y, ip S (sem p ρ x) y = ip S x (sem (adjoint p) ρ y) :=
+  C19_transpose_partial p ρ S (C19_accepted_safe_static A p hacc h ρ) hS
+
+/-- the array-notation acceptance rule is part of `Accepted` -/
+theorem C19_accepted_sections (A : List Nat) (ev : Nat) (cnt : Expr) (l : ARef) (ts : List Term)
+    (h : Accepted A (.sec ev cnt l ts) = true) : ∀ t ∈ ts, t.ref.arr = l.arr → t.ref = l := by
+  simp only [Accepted, Bool.and_eq_true, secOK, List.all_eq_true] at h
+  intro t ht harr
+  have := h.2 t ht
+  simpa [harr] using this
+
+/-! ### the Fortran reading -/
+
+theorem pureAD_seqs (L : List Stmt) (h : ∀ s ∈ L, pureAD s = true) : pureAD (seqs L) = true := by
+  induction L with
+  | nil => rfl
+  | cons s L ih => simp [seqs, pureAD, h s (by simp), ih (fun u hu => h u (by simp [hu]))]
+
+theorem pureAD_pas (p : Stmt) (h : pureAD p = true) : pureAD (pas p) = true := by
+  induction p with
+  | skip => rfl
+  | seq a b iha ihb =>
+    simp only [pureAD, Bool.and_eq_true] at h
+    simp [pas, pureAD, iha h.1, ihb h.2]
+  | assign l ts => simp [pas, isPassive, pureAD]
+  | ite c t f _ _ => unfold pas; split
+                     · exact h
+                     · rfl
+  | loop v lo hi st b _ => unfold pas; split
+                           · exact h
+                           · rfl
+  | passign x e => simp [pureAD] at h
+  | sec ev cnt l ts => simp [pas, isPassive, pureAD]
+
+theorem pureAD_act (p : Stmt) (h : pureAD p = true) : pureAD (act p) = true := by
+  induction p with
+  | skip => rfl
+  | seq a b iha ihb =>
+    simp only [pureAD, Bool.and_eq_true] at h
+    simp [act, pureAD, iha h.1, ihb h.2]
+  | assign l ts =>
+    simp only [act]
+    apply pureAD_seqs
+    intro s hs
+    simp only [adjAssign, List.mem_append, List.mem_map] at hs
+    rcases hs with ⟨t, _, rfl⟩ | hs
+    · rfl
+    · unfold adjTail at hs
+      split at hs
+      · simp only [List.mem_singleton] at hs; subst hs; rfl
+      · split at hs
+        · simp at hs
+        · simp only [List.mem_singleton] at hs; subst hs; rfl
+      · simp only [List.mem_singleton] at hs; subst hs; rfl
+  | ite c t f iht ihf =>
+    simp only [pureAD, Bool.and_eq_true] at h
+    unfold act; split
+    · rfl
+    · simp [pureAD, pureAD_pas t h.1, pureAD_pas f h.2, iht h.1, ihf h.2]
+  | loop v lo hi st b ih =>
+    simp only [pureAD] at h
+    unfold act; split
+    · rfl
+    · simp [pureAD, pureAD_pas b h, ih h]
+  | passign x e => rfl
+  | sec ev cnt l ts =>
+    simp only [act]
+    apply pureAD_seqs
+    intro s hs
+    simp only [adjSec, List.mem_append, List.mem_map] at hs
+    rcases hs with ⟨t, _, rfl⟩ | hs
+    · rfl
+    · unfold adjSecTail at hs
+      split at hs
+      · simp only [List.mem_singleton] at hs; subst hs; rfl
+      · split at hs
+        · simp at hs
+        · simp only [List.mem_singleton] at hs; subst hs; rfl
+      · simp only [List.mem_singleton] at hs; subst hs; rfl
+
+/-- the adjoint of a program without passive assignments has none either -/
+theorem pureAD_adjoint (p : Stmt) (h : pureAD p = true) : pureAD (adjoint p) = true := by
+  simp [adjoint, pureAD, pureAD_pas p h, pureAD_act p h]
+
+/-- **The two readings coincide**: without passive assignments and with loop variables read only
+inside their loops, the Fortran reading `run` (DO variable kept after the loop) computes the
+active state of `sem`. -/
+theorem C19_run_eq_sem (p : Stmt) (hp : pureAD p = true) (hs : wellScoped p = true) (ρ a : Store) :
+    (run p ρ a).2 = sem p ρ a := run_eq_sem p hp hs ρ a
+
+/-- **Transpose theorem in the Fortran reading**: no passive assignments, loop variables read only
+inside their loops (in the TL code and in the generated adjoint — both decidable), `safe`. -/
+theorem C19_transpose_run (p : Stmt) (ρ : Store) (S : Finset Loc)
+    (hp : pureAD p = true) (hs : wellScoped p = true) (hs' : wellScoped (adjoint p) = true)
+    (hsafe : safe p ρ = true) (hS : ∀ l ∈ touched p ρ, l ∈ S) :
+    ∀ x y, ip S (run p ρ x).2 y = ip S x (run (adjoint p) ρ y).2 := by
+  intro x y
+  rw [run_eq_sem p hp hs, run_eq_sem (adjoint p) (pureAD_adjoint p hp) hs']
+  exact C19_transpose_partial p ρ S hsafe hS x y
 
 /-! ### passive variables -/
 
@@ -207,21 +462,42 @@ theorem lhsArrs_seqs (L : List Stmt) : lhsArrs (seqs L) = L.flatMap lhsArrs := b
   | nil => rfl
   | cons s L ih => simp [seqs, lhsArrs, ih]
 
-/-- **Passive variables unchanged** (syntactic part): every variable assigned by the adjoint is an
-active variable of the TL program; the passive store is not an output of `sem` at all, and the
-adjoint binds exactly the loop variables of the TL program. -/
-theorem C19_passive_unchanged (p : Stmt) : ∀ a ∈ lhsArrs (adjoint p), a ∈ activeArrs p := by
+theorem lhsArrs_passive (s : Stmt) (h : isPassive s = true) : lhsArrs s = [] := by
+  induction s with
+  | skip => rfl
+  | seq a b iha ihb => simp only [isPassive, Bool.and_eq_true] at h; simp [lhsArrs, iha h.1, ihb h.2]
+  | assign l ts => simp [isPassive] at h
+  | ite c t f iht ihf => simp only [isPassive, Bool.and_eq_true] at h; simp [lhsArrs, iht h.1, ihf h.2]
+  | loop v lo hi st b ih => simp only [isPassive] at h; simp [lhsArrs, ih h]
+  | passign x e => rfl
+  | sec ev cnt l ts => simp [isPassive] at h
+
+theorem lhsArrs_pas (p : Stmt) : lhsArrs (pas p) = [] := by
   induction p with
-  | skip => simp [adjoint, lhsArrs]
+  | skip => rfl
+  | seq a b iha ihb => simp [pas, lhsArrs, iha, ihb]
+  | assign l ts => simp [pas, isPassive, lhsArrs]
+  | ite c t f _ _ => unfold pas; split
+                     · next h => exact lhsArrs_passive _ h
+                     · rfl
+  | loop v lo hi st b _ => unfold pas; split
+                           · next h => exact lhsArrs_passive _ h
+                           · rfl
+  | passign x e => simp [pas, isPassive, lhsArrs]
+  | sec ev cnt l ts => simp [pas, isPassive, lhsArrs]
+
+theorem lhsArrs_act (p : Stmt) : ∀ a ∈ lhsArrs (act p), a ∈ activeArrs p := by
+  induction p with
+  | skip => simp [act, lhsArrs]
   | seq a b iha ihb =>
     intro x hx
-    simp only [adjoint, lhsArrs, activeArrs, List.mem_append] at hx ⊢
+    simp only [act, lhsArrs, activeArrs, List.mem_append] at hx ⊢
     rcases hx with h | h
     · exact Or.inr (ihb x h)
     · exact Or.inl (iha x h)
   | assign l ts =>
     intro x hx
-    simp only [adjoint, lhsArrs_seqs, adjAssign, List.flatMap_append, List.mem_append, List.mem_flatMap,
+    simp only [act, lhsArrs_seqs, adjAssign, List.flatMap_append, List.mem_append, List.mem_flatMap,
       List.mem_map] at hx
     simp only [activeArrs, List.mem_cons, List.mem_map]
     rcases hx with ⟨s, ⟨t, ht, rfl⟩, hs⟩ | ⟨s, hs, hx⟩
@@ -237,41 +513,131 @@ theorem C19_passive_unchanged (p : Stmt) : ∀ a ∈ lhsArrs (adjoint p), a ∈ 
       · simp only [List.mem_singleton] at hs; subst hs; simpa [lhsArrs] using hx
   | ite c t f iht ihf =>
     intro x hx
-    simp only [adjoint, lhsArrs, activeArrs, List.mem_append] at hx ⊢
-    rcases hx with h | h
-    · exact Or.inl (iht x h)
-    · exact Or.inr (ihf x h)
+    unfold act at hx
+    split at hx
+    · simp [lhsArrs] at hx
+    · simp only [lhsArrs, lhsArrs_pas, List.nil_append, List.mem_append] at hx
+      simp only [activeArrs, List.mem_append]
+      rcases hx with h | h
+      · exact Or.inl (iht x h)
+      · exact Or.inr (ihf x h)
   | loop v lo hi st b ih =>
     intro x hx
-    simp only [adjoint, lhsArrs, activeArrs] at hx ⊢
-    exact ih x hx
+    unfold act at hx
+    split at hx
+    · simp [lhsArrs] at hx
+    · simp only [lhsArrs, lhsArrs_pas, List.nil_append] at hx
+      exact ih x hx
+  | passign x e => simp [act, lhsArrs]
+  | sec ev cnt l ts =>
+    intro x hx
+    simp only [act, lhsArrs_seqs, adjSec, List.flatMap_append, List.mem_append, List.mem_flatMap,
+      List.mem_map] at hx
+    simp only [activeArrs, List.mem_cons, List.mem_map]
+    rcases hx with ⟨s, ⟨t, ht, rfl⟩, hs⟩ | ⟨s, hs, hx⟩
+    · simp only [adjSecTerm, lhsArrs, List.mem_singleton] at hs
+      exact Or.inr ⟨t, (List.mem_filter.mp ht).1, hs.symm⟩
+    · left
+      unfold adjSecTail at hs
+      split at hs
+      · simp only [List.mem_singleton] at hs; subst hs; simpa [lhsArrs] using hx
+      · split at hs
+        · simp at hs
+        · simp only [List.mem_singleton] at hs; subst hs; simpa [lhsArrs] using hx
+      · simp only [List.mem_singleton] at hs; subst hs; simpa [lhsArrs] using hx
 
-theorem loopVars_seqs_adjAssign (l : ARef) (ts : List Term) : loopVars (seqs (adjAssign l ts)) = [] := by
-  have : ∀ L : List Stmt, (∀ s ∈ L, loopVars s = []) → loopVars (seqs L) = [] := by
-    intro L; induction L with
-    | nil => intro _; rfl
-    | cons s L ih => intro h; simp [seqs, loopVars, h s (by simp), ih (fun u hu => h u (by simp [hu]))]
-  apply this
-  intro s hs
-  simp only [adjAssign, List.mem_append, List.mem_map] at hs
-  rcases hs with ⟨t, _, rfl⟩ | hs
-  · rfl
-  · unfold adjTail at hs
-    split at hs
-    · simp only [List.mem_singleton] at hs; subst hs; rfl
-    · split at hs
-      · simp at hs
-      · simp only [List.mem_singleton] at hs; subst hs; rfl
-    · simp only [List.mem_singleton] at hs; subst hs; rfl
+/-- **Passive variables unchanged** (syntactic part): every ARRAY/SCALAR assigned through an active
+assignment of the adjoint is an active variable of the TL program -/
+theorem C19_passive_unchanged (p : Stmt) : ∀ a ∈ lhsArrs (adjoint p), a ∈ activeArrs p := by
+  intro a ha
+  simp only [adjoint, lhsArrs, lhsArrs_pas, List.nil_append] at ha
+  exact lhsArrs_act p a ha
 
-/-- the adjoint binds the same loop variables as the TL program -/
-theorem C19_same_loop_variables (p : Stmt) : ∀ v, v ∈ loopVars (adjoint p) ↔ v ∈ loopVars p := by
+theorem passiveAssigned_seqs (L : List Stmt) : passiveAssigned (seqs L) = L.flatMap passiveAssigned := by
+  induction L with
+  | nil => rfl
+  | cons s L ih => simp [seqs, passiveAssigned, ih]
+
+theorem passiveAssigned_pas (p : Stmt) : ∀ x ∈ passiveAssigned (pas p), x ∈ passiveAssigned p := by
   induction p with
-  | skip => simp [adjoint]
-  | seq a b iha ihb => intro v; simp only [adjoint, loopVars, List.mem_append, iha v, ihb v]; exact Or.comm
-  | assign l ts => intro v; simp [adjoint, loopVars_seqs_adjAssign, loopVars]
-  | ite c t f iht ihf => intro v; simp only [adjoint, loopVars, List.mem_append, iht v, ihf v]
-  | loop v lo hi st b ih => intro w; simp only [adjoint, loopVars, List.mem_cons, ih w]
+  | skip => simp [pas, passiveAssigned]
+  | seq a b iha ihb =>
+    intro x hx
+    simp only [pas, passiveAssigned, List.mem_append] at hx ⊢
+    exact hx.imp (iha x) (ihb x)
+  | assign l ts => simp [pas, isPassive, passiveAssigned]
+  | ite c t f _ _ => intro x hx; unfold pas at hx; split at hx
+                     · exact hx
+                     · simp [passiveAssigned] at hx
+  | loop v lo hi st b _ => intro x hx; unfold pas at hx; split at hx
+                           · exact hx
+                           · simp [passiveAssigned] at hx
+  | passign y e => simp [pas, isPassive, passiveAssigned]
+  | sec ev cnt l ts => simp [pas, isPassive, passiveAssigned]
+
+theorem passiveAssigned_act (p : Stmt) : ∀ x ∈ passiveAssigned (act p), x ∈ passiveAssigned p := by
+  induction p with
+  | skip => simp [act, passiveAssigned]
+  | seq a b iha ihb =>
+    intro x hx
+    simp only [act, passiveAssigned, List.mem_append] at hx ⊢
+    rcases hx with h | h
+    · exact Or.inr (ihb x h)
+    · exact Or.inl (iha x h)
+  | assign l ts =>
+    intro x hx
+    simp only [act, passiveAssigned_seqs, adjAssign, List.flatMap_append, List.mem_append, List.mem_flatMap,
+      List.mem_map] at hx
+    rcases hx with ⟨s, ⟨t, _, rfl⟩, hs⟩ | ⟨s, hs, hx⟩
+    · simp [adjTerm, passiveAssigned] at hs
+    · unfold adjTail at hs
+      split at hs
+      · simp only [List.mem_singleton] at hs; subst hs; simp [passiveAssigned] at hx
+      · split at hs
+        · simp at hs
+        · simp only [List.mem_singleton] at hs; subst hs; simp [passiveAssigned] at hx
+      · simp only [List.mem_singleton] at hs; subst hs; simp [passiveAssigned] at hx
+  | ite c t f iht ihf =>
+    intro x hx
+    unfold act at hx
+    split at hx
+    · simp [passiveAssigned] at hx
+    · simp only [passiveAssigned, List.mem_append] at hx ⊢
+      rcases hx with (h | h) | (h | h)
+      · exact Or.inl (passiveAssigned_pas t x h)
+      · exact Or.inl (iht x h)
+      · exact Or.inr (passiveAssigned_pas f x h)
+      · exact Or.inr (ihf x h)
+  | loop v lo hi st b ih =>
+    intro x hx
+    unfold act at hx
+    split at hx
+    · simp [passiveAssigned] at hx
+    · simp only [passiveAssigned, List.mem_append] at hx ⊢
+      rcases hx with h | h
+      · exact passiveAssigned_pas b x h
+      · exact ih x h
+  | passign y e => simp [act, passiveAssigned]
+  | sec ev cnt l ts =>
+    intro x hx
+    simp only [act, passiveAssigned_seqs, adjSec, List.flatMap_append, List.mem_append, List.mem_flatMap,
+      List.mem_map] at hx
+    rcases hx with ⟨s, ⟨t, _, rfl⟩, hs⟩ | ⟨s, hs, hx⟩
+    · simp [adjSecTerm, passiveAssigned] at hs
+    · unfold adjSecTail at hs
+      split at hs
+      · simp only [List.mem_singleton] at hs; subst hs; simp [passiveAssigned] at hx
+      · split at hs
+        · simp at hs
+        · simp only [List.mem_singleton] at hs; subst hs; simp [passiveAssigned] at hx
+      · simp only [List.mem_singleton] at hs; subst hs; simp [passiveAssigned] at hx
+
+/-- the adjoint assigns no passive variable that the TL code does not assign itself (and, by
+construction of `pas`, with the very same statements) -/
+theorem C19_passive_assignments (p : Stmt) : ∀ x ∈ passiveAssigned (adjoint p), x ∈ passiveAssigned p := by
+  intro x hx
+  simp only [adjoint, passiveAssigned, List.mem_append] at hx
+  exact hx.elim (passiveAssigned_pas p x) (passiveAssigned_act p x)
 
 /-! ### the loop rule and the single-assignment rule, as stand-alone statements -/
 
@@ -287,8 +653,16 @@ theorem C19_loop_rule_defect (lo hi s : Int) (h : spurious lo hi s = true) :
 /-- single assignment, aliasing cases included (LHS on the RHS, repeated variables) -/
 theorem C19_assignment_rule (lhs : ARef) (ts : List Term) (ρ : Store) (S : Finset Loc)
     (h : noHiddenAlias lhs ts ρ = true) (hl : lhs.loc ρ ∈ S) (hts : ∀ t ∈ ts, t.ref.loc ρ ∈ S) :
-    ∀ x y, ip S (sem (.assign lhs ts) ρ x) y = ip S x (sem (adjoint (.assign lhs ts)) ρ y) :=
+    ∀ x y, ip S (sem (.assign lhs ts) ρ x) y = ip S x (sem (seqs (adjAssign lhs ts)) ρ y) :=
   isAdj_assign lhs ts ρ h hl hts
+
+/-- array-section assignment: accepted (`secOK`) and conformable (`secInj`) ⇒ the array-notation
+adjoint is the transpose -/
+theorem C19_section_rule (ev : Nat) (cnt : Expr) (lhs : ARef) (ts : List Term) (ρ : Store) (S : Finset Loc)
+    (hok : secOK lhs ts = true) (hinj : secInj ev cnt lhs ts ρ = true)
+    (hS : ∀ e ∈ secIdx (eval cnt ρ), lhs.loc (ρ.set (ev, 0, 0) e) ∈ S ∧ ∀ t ∈ ts, t.ref.loc (ρ.set (ev, 0, 0) e) ∈ S) :
+    ∀ x y, ip S (sem (.sec ev cnt lhs ts) ρ x) y = ip S x (sem (seqs (adjSec ev cnt lhs ts)) ρ y) :=
+  isAdj_sec ev cnt lhs ts ρ hok hinj hS
 
 /-! ### witnesses: the defects of the pinned construction -/
 
@@ -346,7 +720,8 @@ def signProg : Stmt := .assign (sc 1) [⟨false, .lit 1, sc 0⟩, ⟨true, .lit 
 operator of the first deferred increment term is dropped. -/
 theorem C19_pinned_sign_counterexample :
     ¬ (∀ x y, ip {(0, 0, 0), (1, 0, 0)} (sem signProg zeroStore x) y =
-              ip {(0, 0, 0), (1, 0, 0)} x (sem (adjointPinned signProg) zeroStore y)) := by
+              ip {(0, 0, 0), (1, 0, 0)} x
+                (sem (seqs (adjAssignPinned (sc 1) [⟨false, .lit 1, sc 0⟩, ⟨true, .lit 1, sc 1⟩])) zeroStore y)) := by
   intro h
   have := h (unit (1, 0, 0)) (unit (1, 0, 0))
   rw [ip_pair _ _ (by decide), ip_pair _ _ (by decide)] at this
@@ -356,7 +731,7 @@ theorem C19_pinned_sign_counterexample :
 /-! ### non-vacuity and sanity evaluations -/
 
 /-- the fixed construction on `z = a - z`: `a = a + z ; z = -z` -/
-example : adjoint signProg =
+example : act signProg =
     seqs [.assign (sc 0) [⟨false, .lit 1, sc 0⟩, ⟨false, .lit 1, sc 1⟩],
           .assign (sc 1) [⟨false, .un .neg (.lit 1), sc 1⟩]] := by decide
 
@@ -384,5 +759,116 @@ example : (touched demoProg demoStore).length = 15 := by decide
 example : sem demoProg demoStore (unit (1, 2, 0)) (0, 1, 0) = -4 := by decide
 example : sem (adjoint demoProg) demoStore (unit (0, 1, 0)) (1, 2, 0) = -4 := by decide
 example : staticallySafe signProg = true := by decide
+
+
+/-! ### witnesses that need the Fortran reading `run`, and the array-notation acceptance rule -/
+
+theorem ip_unit_right {S : Finset Loc} {l : Loc} (hl : l ∈ S) (x : Store) : ip S x (unit l) = x l := by
+  unfold ip unit
+  simp only [mul_ite, mul_one, mul_zero]
+  rw [Finset.sum_ite_eq' S l, if_pos hl]
+
+theorem ip_unit_left {S : Finset Loc} {l : Loc} (hl : l ∈ S) (y : Store) : ip S (unit l) y = y l := by
+  unfold ip unit
+  simp only [ite_mul, one_mul, zero_mul]
+  rw [Finset.sum_ite_eq' S l, if_pos hl]
+
+/-- `pt = 2 ; a(1) = pt*b(1) ; pt = 3 ; b(2) = pt*a(1)`  (ids: a=0, b=1, pt=2) -/
+def reassignProg : Stmt :=
+  .seq (.passign 2 (.lit 2)) (.seq (.assign (el 0 (.lit 1)) [⟨false, .var 2, el 1 (.lit 1)⟩])
+    (.seq (.passign 2 (.lit 3)) (.assign (el 1 (.lit 2)) [⟨false, .var 2, el 0 (.lit 1)⟩])))
+def reassignS : Finset Loc := {(0, 1, 0), (1, 1, 0), (1, 2, 0)}
+
+/-- `schedule_node` puts both passive assignments first -/
+example : flat (adjoint reassignProg) =
+    [.passign 2 (.lit 2), .passign 2 (.lit 3),
+     .assign (el 0 (.lit 1)) [⟨false, .lit 1, el 0 (.lit 1)⟩, ⟨false, .var 2, el 1 (.lit 2)⟩],
+     .assign (el 1 (.lit 2)) [],
+     .assign (el 1 (.lit 1)) [⟨false, .lit 1, el 1 (.lit 1)⟩, ⟨false, .var 2, el 0 (.lit 1)⟩],
+     .assign (el 0 (.lit 1)) []] := by decide
+
+/-- **Finding (passive variable re-assigned between active statements)**: the TL code computes
+`b(2) = 6·b(1)`, the generated adjoint (both `pt = …` hoisted, so `pt = 3` everywhere) gives
+`b(1) += 9·b(2)`. -/
+theorem C19_passive_reassigned_counterexample :
+    ¬ (∀ x y, ip reassignS (run reassignProg zeroStore x).2 y =
+              ip reassignS x (run (adjoint reassignProg) zeroStore y).2) := by
+  intro h
+  have := h (unit (1, 1, 0)) (unit (1, 2, 0))
+  rw [ip_unit_right (by decide), ip_unit_left (by decide)] at this
+  revert this
+  decide
+
+/-- `do i = 1, 3 ; a(i) = a(i) + b(i) ; end do ; a(i) = 2*a(i)`  (ids: a=0, b=1, i=2) -/
+def afterLoopProg : Stmt :=
+  .seq (.loop 2 (.lit 1) (.lit 3) (.lit 1)
+          (.assign (el 0 (.var 2)) [⟨false, .lit 1, el 0 (.var 2)⟩, ⟨false, .lit 1, el 1 (.var 2)⟩]))
+       (.assign (el 0 (.var 2)) [⟨false, .lit 2, el 0 (.var 2)⟩])
+def afterLoopS : Finset Loc :=
+  {(0, 0, 0), (0, 1, 0), (0, 2, 0), (0, 3, 0), (0, 4, 0), (1, 1, 0), (1, 2, 0), (1, 3, 0)}
+
+/-- **Finding (loop variable read after its loop)**: the TL code doubles `a(4)` (`i = 4` after
+the loop); in the adjoint that statement runs first, with the entry value of `i` (here 0). -/
+theorem C19_loop_variable_after_loop_counterexample :
+    ¬ (∀ x y, ip afterLoopS (run afterLoopProg zeroStore x).2 y =
+              ip afterLoopS x (run (adjoint afterLoopProg) zeroStore y).2) := by
+  intro h
+  have := h (unit (0, 4, 0)) (unit (0, 4, 0))
+  rw [ip_unit_right (by decide), ip_unit_left (by decide)] at this
+  revert this
+  decide
+
+/-- `a(1:3:2, j) = a(1:3:2, j+1) + 2*b(1:2, j)` as the exporter writes it (ids: a=0, b=1, j=2,
+counter 3, two elements): the RHS reference to `a` has a different scalar subscript -/
+def shiftedSecProg : Stmt :=
+  .sec 3 (.lit 2) ⟨0, .bin .add (.lit 1) (.bin .mul (.var 3) (.lit 2)), .var 2⟩
+    [⟨false, .lit 1, ⟨0, .bin .add (.lit 1) (.bin .mul (.var 3) (.lit 2)), .bin .add (.var 2) (.lit 1)⟩⟩,
+     ⟨false, .lit 2, ⟨1, .bin .add (.lit 1) (.bin .mul (.var 3) (.lit 1)), .var 2⟩⟩]
+def shiftedSecStore : Store := storeOf [((2, 0, 0), 2)]
+def shiftedSecS : Finset Loc := {(0, 1, 2), (0, 3, 2), (0, 1, 3), (0, 3, 3), (1, 1, 2), (1, 2, 2)}
+
+/-- `_array_ranges_match` refuses it … -/
+example : Accepted [0, 1] shiftedSecProg = false := by decide
+example : safe shiftedSecProg shiftedSecStore = false := by decide
+/-- … and it has to: `apply` would treat `a(1:3:2, j+1)` as an increment of the LHS and emit only
+`b(1:2,j) = b(1:2,j) + 2*a(1:3:2,j)` -/
+example : flat (adjoint shiftedSecProg) =
+    [.sec 3 (.lit 2) ⟨1, .bin .add (.lit 1) (.bin .mul (.var 3) (.lit 1)), .var 2⟩
+      [⟨false, .lit 1, ⟨1, .bin .add (.lit 1) (.bin .mul (.var 3) (.lit 1)), .var 2⟩⟩,
+       ⟨false, .lit 2, ⟨0, .bin .add (.lit 1) (.bin .mul (.var 3) (.lit 2)), .var 2⟩⟩]] := by decide
+
+/-- **Why the acceptance rule is needed** (the seeded mutation that dropped it): without
+`secOK` the array-notation construction is not a transpose. -/
+theorem C19_section_acceptance_needed :
+    ¬ (∀ x y, ip shiftedSecS (sem shiftedSecProg shiftedSecStore x) y =
+              ip shiftedSecS x (sem (adjoint shiftedSecProg) shiftedSecStore y)) := by
+  intro h
+  have := h (unit (0, 1, 3)) (unit (0, 1, 2))
+  rw [ip_unit_right (by decide), ip_unit_left (by decide)] at this
+  revert this
+  decide
+
+/-- an accepted section statement with a same-subscript increment:
+`a(1:3:2, j) = 3*a(1:3:2, j) + 2*b(1:2, j) - a(1:3:2, j)` -/
+def incSecProg : Stmt :=
+  .sec 3 (.lit 2) ⟨0, .bin .add (.lit 1) (.bin .mul (.var 3) (.lit 2)), .var 2⟩
+    [⟨false, .lit 3, ⟨0, .bin .add (.lit 1) (.bin .mul (.var 3) (.lit 2)), .var 2⟩⟩,
+     ⟨false, .lit 2, ⟨1, .bin .add (.lit 1) (.bin .mul (.var 3) (.lit 1)), .var 2⟩⟩,
+     ⟨true, .lit 1, ⟨0, .bin .add (.lit 1) (.bin .mul (.var 3) (.lit 2)), .var 2⟩⟩]
+example : Accepted [0, 1] incSecProg = true ∧ staticallySafe incSecProg = true := by decide
+example : safe incSecProg shiftedSecStore = true := by decide
+example : sem incSecProg shiftedSecStore (unit (1, 2, 2)) (0, 3, 2) = 2 := by decide
+example : sem (adjoint incSecProg) shiftedSecStore (unit (0, 3, 2)) (1, 2, 2) = 2 := by decide
+example : sem (adjoint incSecProg) shiftedSecStore (unit (0, 3, 2)) (0, 3, 2) = 2 := by decide
+/-- refusals mirrored by `Accepted`: product of two active variables, active subscript, active
+loop bound, passive LHS with an active RHS -/
+example : Accepted [0, 1] (.assign (el 0 (.lit 1)) [⟨false, .idx1 1 (.lit 1), el 0 (.lit 2)⟩]) = false := by decide
+example : Accepted [0, 1] (.assign (el 0 (.idx1 1 (.lit 1))) []) = false := by decide
+example : Accepted [0, 1] (.loop 5 (.lit 1) (.idx1 0 (.lit 1)) (.lit 1) .skip) = false := by decide
+example : Accepted [0, 1] (.passign 0 (.lit 1)) = false ∧ Accepted [0, 1] (.passign 7 (.idx1 1 (.lit 1))) = false := by decide
+example : Accepted [0, 1] demoProg = true := by decide
+/-- hypotheses of `C19_transpose_run` on the demo program -/
+example : pureAD demoProg = true ∧ wellScoped demoProg = true ∧ wellScoped (adjoint demoProg) = true := by decide
+example : wellScoped afterLoopProg = false ∧ pureAD reassignProg = false := by decide
 
 end C19
